@@ -494,7 +494,7 @@ fn has_adjacent(img: &RuntimeMemoryImage) -> bool {
 
 pub fn gen(out: &mut Out, _sub: &str) {
     let mut rng = Rng::new(out.seed ^ 0xC19);
-    let layouts = out.size(260, 6000);
+    let layouts = out.size(120, 3000);
     let mut refused = 0u64;
     let mut routes: std::collections::BTreeMap<String, u64> = Default::default();
     let mut adjacent = 0u64;
